@@ -10,6 +10,7 @@ CONSTANTS
   Horizon = 10
   MaxEx = 1000000
   ProbeNs <- ProbesDeep
+  ProbeUids <- UidsDeep
 VIEW viewU
-INVARIANTS SentLeavesPool FieldCount PlaceholderType ReqFits ReqFitsConst NoShrink PoolCap StaysFull RespFits RespCount FreshCookiesOpen
+INVARIANTS SentLeavesPool FieldCount PlaceholderType ReqFits ReqFitsConst NoShrink PoolCap StaysFull RespFits RespCount ProbeAnswered FreshCookiesOpen
 PROPERTIES SingleUse Answered Fresh
